@@ -459,6 +459,7 @@ fn flags() -> Sx {
 }
 
 pub fn gen(a: &Args) -> Vec<String> {
+    if a.extra.iter().any(|x| x == "lazy") { crate::eg::MOTIF_BIAS.store(7, std::sync::atomic::Ordering::Relaxed); }
     let unsound = a.extra.iter().any(|x| x == "--unsound");
     let only: Option<u64> = a.extra.iter().position(|x| x == "--an").map(|i| a.extra[i + 1].parse().unwrap());
     let mut cases = vec![];
